@@ -110,7 +110,8 @@ func nativeRewrite(w *World, pkg string, tmp string) (map[string]string, error) 
 			}
 			return true
 		})
-		for _, imp := range f.Imports {
+		imports := append([]*ast.ImportSpec{}, f.Imports...)
+		for _, imp := range imports {
 			path := strings.Trim(imp.Path.Value, `"`)
 			var obj types.Object
 			if imp.Name != nil {
